@@ -18,36 +18,36 @@ import (
 // scheduler choices.
 
 type wpkt struct {
-	seq   int
-	from  int
-	data  []byte
-	sent  time.Duration // virtual time of the Write
-	due   time.Duration
-	copyN int // 0 original, >0 duplicate copy
-	dec   *wPacket
-	decErr error
-	tag   string // "dup", "late", "swap" annotations
+	seq     int
+	from    int
+	data    []byte
+	sent    time.Duration // virtual time of the Write
+	due     time.Duration
+	copyN   int // 0 original, >0 duplicate copy
+	dec     *wPacket
+	decErr  error
+	tag     string // "dup", "late", "swap" annotations
 	noFault bool
 }
 
 type sendSnap struct{ cwnd, rwnd uint32 }
 
 type wireEvent struct {
-	At    time.Duration
-	Kind  string // send deliver undeliverable drop dup late swap inject kill
-	Seq   int
-	From  int
-	Pkt   *wpkt
-	snap  *sendSnap
+	At   time.Duration
+	Kind string // send deliver undeliverable drop dup late swap inject kill
+	Seq  int
+	From int
+	Pkt  *wpkt
+	snap *sendSnap
 }
 
 type wendpoint struct {
-	inbox      []*wpkt
-	closed     bool
-	readErr    error
-	writeErr   error
-	rdDeadline time.Time
-	nWrites    int
+	inbox            []*wpkt
+	closed           bool
+	readErr          error
+	writeErr         error
+	rdDeadline       time.Time
+	nWrites          int
 	writesAfterClose int
 }
 
@@ -56,24 +56,24 @@ type faultSet struct {
 }
 
 type wire struct {
-	s        *vsched.Sched
-	mu       sync.Mutex
-	seq      int
-	inflight []*wpkt
-	ep       [2]*wendpoint
-	delay    [2]time.Duration
-	lateBy   time.Duration
-	dupAfter time.Duration
-	faults   faultSet
-	faultsOn bool
-	faultDir [2]bool // directions in which faults are offered
-	events   []wireEvent
-	onSend   func(ev *wireEvent) // called in the writer's context
-	filter   func(p *wpkt) bool  // packets for which faults are offered (nil = all)
-	blackhole [2]bool            // drop everything sent by endpoint i (silent peer)
-	killFn    func(p *wpkt) bool // deterministic drop rule applied at send time
-	delayFn   func(p *wpkt) time.Duration // deterministic extra delay applied at send time
-	envPreempt bool
+	s           *vsched.Sched
+	mu          sync.Mutex
+	seq         int
+	inflight    []*wpkt
+	ep          [2]*wendpoint
+	delay       [2]time.Duration
+	lateBy      time.Duration
+	dupAfter    time.Duration
+	faults      faultSet
+	faultsOn    bool
+	faultDir    [2]bool // directions in which faults are offered
+	events      []wireEvent
+	onSend      func(ev *wireEvent)         // called in the writer's context
+	filter      func(p *wpkt) bool          // packets for which faults are offered (nil = all)
+	blackhole   [2]bool                     // drop everything sent by endpoint i (silent peer)
+	killFn      func(p *wpkt) bool          // deterministic drop rule applied at send time
+	delayFn     func(p *wpkt) time.Duration // deterministic extra delay applied at send time
+	envPreempt  bool
 	onQuiescent func()
 }
 
@@ -297,9 +297,9 @@ var errWireClosed = errors.New("wire: use of closed connection")
 
 type wireTimeout struct{}
 
-func (wireTimeout) Error() string   { return "wire: i/o timeout" }
-func (wireTimeout) Timeout() bool   { return true }
-func (wireTimeout) Temporary() bool { return true }
+func (wireTimeout) Error() string     { return "wire: i/o timeout" }
+func (wireTimeout) Timeout() bool     { return true }
+func (wireTimeout) Temporary() bool   { return true }
 func (wireTimeout) Is(err error) bool { return err == os.ErrDeadlineExceeded }
 
 func (c *wconn) Read(b []byte) (int, error) {
